@@ -101,6 +101,34 @@ def _mc(rep, label, module, cfg, bounds, **kw):
     rep.add_mc(label, res, bounds)
 
 
+class _EnvGuard:
+    """Report proxy handed to validate_group: a trace that TLC rejects on an `env_*` clause left the environment the
+    specification assumes - that is a bug of the stimulus generator, never a finding about the gateware.  Such a trace is
+    dropped and counted (evidence: coverage.stimuli_outside_env); everything else goes to the real Report."""
+
+    def __init__(self, rep):
+        self._rep = rep
+
+    def __getattr__(self, name):
+        return getattr(self._rep, name)
+
+    def violation(self, signature, what, replay):
+        if str(signature.get("clause", "")).startswith("env_"):
+            ex = self._rep.extra.setdefault("stimuli_outside_env", {"count": 0, "examples": []})
+            ex["count"] += 1
+            if len(ex["examples"]) < 3:
+                ex["examples"].append(what[:400])
+            note = "stimulus outside the assumed environment dropped (clause %s); not a verdict" % signature.get("clause")
+            if note not in self._rep.notes:
+                self._rep.notes.append(note)
+            return "outside_env"
+        return self._rep.violation(signature, what, replay)
+
+
+def _validate(rep, module, cfg, items, **kw):
+    return validate_group(_EnvGuard(rep), SPEC_DIR, module, cfg, items, **kw)
+
+
 def _cfg(name):
     with open(os.path.join(tlc.SPECS, SPEC_DIR, name)) as f:
         return f.read()
@@ -545,7 +573,7 @@ def check_C31(rep):
     rep.sample({"dut": items[0][1], "first_steps": items[0][0]["steps"][:4]})
     rep.sample({"dut": items[-1][1], "first_steps": items[-1][0]["steps"][:6]})
 
-    validate_group(rep, SPEC_DIR, "ScramblerTrace", _cfg("ScramblerTrace.cfg.tmpl"), items,
+    _validate(rep, "ScramblerTrace", _cfg("ScramblerTrace.cfg.tmpl"), items,
                    classify=classify_scr, steps_of=lambda t: len(t["steps"]), timeout=3000)
 
 
@@ -707,7 +735,7 @@ def check_C32(rep):
     rep.sample({"dut": items[0][1], "first_cycles": items[0][0][:6]})
     rep.sample({"dut": items[-1][1], "first_cycles": items[-1][0][:6]})
     cfg = tlc.render_cfg(_cfg("CtcRxTrace.cfg.tmpl"), {"Cap": CTC_CAP})
-    validate_group(rep, SPEC_DIR, "CtcRxTrace", cfg, items, classify=classify_ctcrx, timeout=3000)
+    _validate(rep, "CtcRxTrace", cfg, items, classify=classify_ctcrx, timeout=3000)
 
 
 # =====================================================================================================
@@ -716,6 +744,7 @@ def check_C32(rep):
 
 SKIP_LIMIT = 354
 MAX_BURST_WORDS = 354          # Env assumption: a non-idle burst is at most 1416 symbols (4 owed sets + carry)
+MAX_OWED = 5                   # ... and at most this many SKP ordered sets are ever owed (CtcTx.tla!MaxOwed)
 
 
 def ctctx_bench(limit):
@@ -789,12 +818,24 @@ def _link_word(rng, kind):
 
 def link_schedule(rng, n, limit, style=None):
     """[(word, idle)] : bursts of non-idle words (<= the assumed maximum) separated by idle filler of any length.
-    Env assumption: idle is offered often enough that the SKP debt stays within MAX_OWED ordered sets - after a burst the
-    gap is at least long enough to pay the debt the burst created ("tight": bursts that create less than two sets,
-    single idle words between them)."""
+    Env assumption: idle is offered often enough that the SKP debt stays within MAX_OWED ordered sets.  The generator
+    keeps the same books as the environment would (symbols sent, sets owed, a SKP word taken at an idle word when two
+    are owed) and ends a burst early rather than let the debt pass the bound."""
     per_credit = max(1, limit // 4)
     style = style or rng.choice(["short", "long", "tight", "mixed", "idleheavy"])
     out = []
+    elapsed, owed = 0, 0
+
+    def account(idle):
+        nonlocal elapsed, owed
+        ins = idle and owed >= 2
+        crossed = elapsed + 4 >= limit
+        elapsed = elapsed + 4 - limit if crossed else elapsed + 4
+        owed += (1 if crossed else 0) - (2 if ins else 0)
+
+    def debt_after_data_word():
+        return owed + (1 if elapsed + 4 >= limit else 0)
+
     while len(out) < n:
         if style == "short":
             burst, extra = rng.randint(1, 2 * per_credit), rng.randint(0, 5)
@@ -809,9 +850,15 @@ def link_schedule(rng, n, limit, style=None):
         burst = min(burst, MAX_BURST_WORDS, 4 * per_credit)
         gap = 1 + extra if style == "tight" else (burst // (2 * per_credit)) + 1 + extra
         for _ in range(burst):
+            if debt_after_data_word() > MAX_OWED:
+                break
             kind = rng.choice(["data"] * 6 + ["zero", "zero", "hdr", "com"] + (["skplike"] if rng.random() < 0.05 else []))
             out.append((_link_word(rng, kind), 0))
-        out += [([0, 0, 0, 0], 1)] * gap
+            account(False)
+        while gap > 0 or owed > MAX_OWED - 2:
+            out.append(([0, 0, 0, 0], 1))
+            account(True)
+            gap -= 1
     return out[:n]
 
 
@@ -894,7 +941,7 @@ def check_C33(rep):
                 rep.nontriv((tr["cfg"]["kind"], limit, r["idle"], skp_out, r["en"], min(run, 400) // 50))
         rep.sample({"dut": items[0][1], "limit": limit, "first_cycles": items[0][0]["steps"][:4]})
         cfg = tlc.render_cfg(_cfg("CtcTxTrace.cfg.tmpl"), {"Limit": limit})
-        validate_group(rep, SPEC_DIR, "CtcTxTrace", cfg, items, classify=classify_ctctx,
+        _validate(rep, "CtcTxTrace", cfg, items, classify=classify_ctctx,
                        steps_of=lambda t: len(t["steps"]), timeout=3000)
 
 
@@ -1114,7 +1161,7 @@ def check_C34(rep):
                 prev_valid = r["v"]
         rep.sample({"dut": cls, "origin": items[-1][1]["origin"], "first_cycles": items[-1][0][:5]})
         cfg = tlc.render_cfg(_cfg("AlignerTrace.cfg.tmpl"), {"Patterns": pats_name})
-        validate_group(rep, SPEC_DIR, "AlignerTrace", cfg, items, classify=classify_aligner, timeout=3000)
+        _validate(rep, "AlignerTrace", cfg, items, classify=classify_aligner, timeout=3000)
 
 
 # =====================================================================================================
@@ -1515,7 +1562,7 @@ def check_C42(rep):
                     rep.nontriv((cfg["pattern"], cfg["period"], "rise", d, r["det"]))
     rep.sample({"dut": items[3][1], "cfg": items[3][0]["cfg"], "events": items[3][0]["steps"][:8]})
     rep.sample({"dut": items[-1][1], "cfg": items[-1][0]["cfg"], "events": items[-1][0]["steps"][:8]})
-    validate_group(rep, SPEC_DIR, "LfpsTrace", _cfg("LfpsTrace.cfg.tmpl"), items, classify=classify_lfps,
+    _validate(rep, "LfpsTrace", _cfg("LfpsTrace.cfg.tmpl"), items, classify=classify_lfps,
                    steps_of=lambda t: len(t["steps"]), timeout=3000)
 
 
